@@ -24,6 +24,10 @@ TRIGGERS = [
     "del m.US (space whose uncached and cached cells another space's value was computed from)",   # 16
     "o_attr_child.clear() then del Sub.z (two values read the reference through an attribute path, one was cleared before)",   # 17
     "o_attr_child.clear() then del Base.bx -> derived S.bx (read by name by several cells)",   # 18
+    "del P.PC.pc (cells of a child space of the parametric space; several instances alive)",   # 19
+    "del QQ.QC.QG (grandchild space of a parametric space)",   # 20
+    "del m.DynB (the base the parameter formula of PB names)",   # 21
+    "del DynB.DC (child space of that base)",   # 22
 ]
 
 PROBES_COMMON = ["name", "fullname", "parent", "model", "doc", "allow_none"]
@@ -97,6 +101,37 @@ def delete(g: int, h: int, bx: int, x: int, y: int, sh: int, z: int, k: int, tri
         elif trig == 4:
             H["S.bf(derived)"], H["S.bo(derived)"] = (S.bf, "cells"), (S.bo, "cells")
             alive["Base.bf"] = m.Base.bf
+        elif trig == 20:
+            Q = live.QQ
+            if pre:
+                qi = Q[1]
+                if pre == 1:
+                    qi.QC.QG.qg()
+                H.update({"QQ[1].QC.QG": (qi.QC.QG, "space"), "QQ[1].QC.QG.qg": (qi.QC.QG.qg, "cells")})
+            H.update({"QQ.QC.QG": (Q.QC.QG, "space"), "QQ.QC.QG.qg": (Q.QC.QG.qg, "cells")})
+            alive["QQ.QC"] = Q.QC
+        elif trig in (21, 22):
+            PB = live.PB
+            if pre:
+                pi_ = PB[1]
+                if pre == 1:
+                    pi_.db(), pi_.DC.dcc()
+                H.update({"PB[1].DC": (pi_.DC, "space"), "PB[1].DC.dcc": (pi_.DC.dcc, "cells")})
+                for j_ in (2, 3):           # several instances built from the same base alive at once
+                    H.update({"PB[%d].DC" % j_: (PB[j_].DC, "space"), "PB[%d].DC.dcc" % j_: (PB[j_].DC.dcc, "cells")})
+                if trig == 21:
+                    H.update({"PB[1]": (pi_, "space"), "PB[1].db": (pi_.db, "cells"), "PB[2]": (PB[2], "space"), "PB[3].db": (PB[3].db, "cells")})
+            H.update({"DynB.DC": (live.DynB.DC, "space"), "DynB.DC.dcc": (live.DynB.DC.dcc, "cells")})
+            if trig == 21:
+                H.update({"DynB": (live.DynB, "space"), "DynB.db": (live.DynB.db, "cells")})
+            alive["PB"] = PB
+        elif trig == 19:
+            it3 = P[3] if pre else None
+            H.update({"P.PC.pc": (P.PC.pc, "cells")})
+            if it is not None:
+                for nm_, inst in (("P[1]", it), ("P(2)", it2), ("P[3]", it3)):
+                    H.update({nm_: (inst, "space"), nm_ + ".PC": (inst.PC, "space"), nm_ + ".PC.pc": (inst.PC.pc, "cells"), nm_ + ".h": (inst.h, "cells")})
+            alive["P.h"] = P.h
         elif trig in (5, 6, 10):
             if it is not None:
                 H.update({"P[1]": (it, "space"), "P[1].h": (it.h, "cells"), "P[1].PC": (it.PC, "space"), "P[1].PC.pc": (it.PC.pc, "cells"),
@@ -182,6 +217,14 @@ def delete(g: int, h: int, bx: int, x: int, y: int, sh: int, z: int, k: int, tri
         r = call(delattr, m, "PP")
     elif trig == 16:
         r = call(delattr, m, "US"); call(delattr, fresh.m, "US")
+    elif trig == 20:
+        r = call(delattr, live.QQ.QC, "QG")
+    elif trig == 21:
+        r = call(delattr, m, "DynB")
+    elif trig == 22:
+        r = call(delattr, live.DynB, "DC")
+    elif trig == 19:
+        r = call(delattr, P.PC, "pc"); call(delattr, fresh.P.PC, "pc")
     elif trig == 17:
         call(S.cells["o_attr_child"].clear)
         r = call(delattr, live.Sub, "z"); call(delattr, fresh.Sub, "z")
@@ -251,7 +294,7 @@ def delete(g: int, h: int, bx: int, x: int, y: int, sh: int, z: int, k: int, tri
     if not check(sane, "model._check_sanity() after deletion"):
         return False
     # ---- dependants re-evaluate to the values of a model that only saw the deletion
-    if trig in (0, 1, 3, 4, 5, 6, 8, 10, 11, 16, 17, 18):
+    if trig in (0, 1, 3, 4, 5, 6, 8, 10, 11, 16, 17, 18, 19):
         a, b = live.observe(), fresh.observe()
         for n in OBSERVERS:
             if not check(same_outcome(a[n], b[n]), "dependant " + n, lambda: (a[n], b[n])):
